@@ -102,6 +102,7 @@ type rCase struct {
 	mixNames       bool   // consecutive runs on one metrics instance use different scenario names
 	scnName        string // scenario name of this run ("" = scn)
 	failSetupOnRun int    // consecutive runs on one metrics instance: the setup of this run (1-based) fails
+	stageTimers    bool   // the run uses the process-wide metrics instance and its bodies time stages with t.Time (one of them unnamed)
 	lateFailUs     int64  // a goroutine started by the body marks the handle failed this long after the body returned
 	asyncFail      bool   // light runs: a goroutine of the scenario marks the iteration failed just as its body returns
 	helperEvery    int    // every helperEvery-th body works in a helper goroutine guarded by testing.CheckResults(t, done) that panics
@@ -498,6 +499,10 @@ func runOne(c *ctx, rc rCase, m *metrics.Metrics) rTrace {
 			if rc.failEarly && out == 1 && !pan {
 				t.Fail()
 			}
+			if rc.stageTimers {
+				t.Time("connect", func() {})
+				t.Time("", func() {}) // an unnamed step of a table-driven scenario
+			}
 			if rc.lateFailUs > 0 {
 				bodyDone := make(chan struct{})
 				defer close(bodyDone)
@@ -657,10 +662,16 @@ func runOne(c *ctx, rc rCase, m *metrics.Metrics) rTrace {
 	// exported metrics, flattened; the harness checks each series' label SET (keys and static pairing)
 	if fams, err := mm.Registry.Gather(); err == nil {
 		for _, f := range fams {
+			if !strings.HasPrefix(f.GetName(), "form3_loadtest_") {
+				continue // the process-wide registry also carries the Go runtime collectors
+			}
 			for _, mt := range f.GetMetric() {
 				got := map[string]string{}
 				for _, l := range mt.GetLabel() {
 					got[l.GetName()] = l.GetValue()
+				}
+				if rc.stageTimers && f.GetName() != "form3_loadtest_setup" && got["stage"] != "iteration" {
+					continue // the scenario's own stage timers (t.Time): not iteration samples
 				}
 				fam := int64(0)
 				scnName := rc.scnName
@@ -903,6 +914,15 @@ func buildCases(c *ctx) []rCase {
 			}
 			return rateTrigger(r, w), nil
 		}, bodyMaxUs: 3000})
+	// bodies that time their own stages with t.Time - one of them unnamed - on the process-wide metrics instance: the
+	// iteration series still holds exactly the result's counts
+	{
+		rc := constantCase("stage-timers", "6/10ms", 10*ms, 4, 60, 2000*ms, "none")
+		rc.bodyMaxUs = 500
+		rc.failEvery = 3
+		rc.stageTimers = true
+		add(rc)
+	}
 	// a late report: a goroutine of iteration N marks the handle failed well after N has returned and long before the
 	// same worker's next iteration starts (one worker, 400 ms between requests, report at +25 ms): N+1 starts clean
 	{
@@ -1313,6 +1333,9 @@ func init() {
 				_ = v
 			}
 			m := metrics.NewInstance(prometheus.NewRegistry(), true, rc.labels)
+			if rc.stageTimers {
+				m = metrics.Instance() // what T.Time records into (initialised in main like f1.New() does)
+			}
 			for run := 0; run < rc.cfg.MetricsRuns; run++ {
 				rc.cfg.RunIndex = run
 				if rc.mixNames {
